@@ -226,7 +226,32 @@ def h_listpos(ctx, cls, lattr, full_lists=False):
             ctx.check("other list members are untouched", same_model(ctx, gm[i], members[i]))
 
 
-HARNESSES = dict(element=h_element, listpos=h_listpos)
+def h_document_text(ctx, closed):
+    """the whole route from text: a transaction written out as OFX text (elements of their full declared length, symbolic
+    first and last characters), read by the library's parser and converted"""
+    from ofxtools import Parser
+    from sx.models.etree import make_treebuilder
+    K = ofxgen.class_by_name("STMTTRN")
+
+    def full(name, n):
+        filler = ("The quick brown fox jumps over the lazy dog 0123456789 " * 8)[:n - 2]
+        # in text, a raw '<' would be markup: character data may contain anything else (raw '&' is C10's subject)
+        nolt = [(0x21, 0x25), (0x27, 0x3B), (0x3D, 0x7E), (0xA1, 0xFF), (0x100, 0x100), (0x20AC, 0x20AC), (0x4E2D, 0x4E2D)]
+        return ctx.str(name + "_a", 1, nolt) + filler + ctx.str(name + "_z", 1, nolt)
+    vals = [("TRNTYPE", "CREDIT"), ("DTPOSTED", "20200229120000"), ("TRNAMT", "-12.50"), ("FITID", full("fitid", 255)), ("NAME", full("name", 32)),
+            ("MEMO", full("memo", 255))]
+    text = "<STMTTRN>" + "".join(["<" + t + ">" + v + ("</" + t + ">" if closed else "") + "\r\n" for t, v in vals]) + "</STMTTRN>"
+    tb = make_treebuilder(Parser.TreeBuilder, ctx.mode == "sym")
+    tb.feed(text)
+    got, cats = try_convert(tb.close())
+    ctx.check("a document whose element text is in its type's lexical space is accepted", got is not None)
+    if got is None:
+        return
+    ctx.check("the element reaches the model at the same place with the value its type rules assign",
+              ctx.all([got.fitid == vals[3][1], got.name == vals[4][1], got.memo == vals[5][1], got.trntype == "CREDIT"]))
+
+
+HARNESSES = dict(element=h_element, listpos=h_listpos, document_text=h_document_text)
 
 META = dict(
     bounds=dict(documents="the class's document (a valid instance holding the element) with one element text symbolic at a time",
@@ -246,6 +271,8 @@ def instances(tier, seed):
         opts.setdefault("wall_s", 180 if not full else 900)
         opts.setdefault("timeout_ms", 20000)
         out.append(dict(name=name, harness=h, fn=HARNESSES[h], params=params, opts=opts))
+    for closed in (False, True):
+        mk(f"document_text[end tags={closed}]", "document_text", dict(closed=closed))
     # every recorded enumeration token of every distinct token set (quick: one element per set; thorough: every element)
     snap = snapshot()
     seen_sets = set()
